@@ -36,12 +36,12 @@ def config(tier):
 def plan(tier, seed):
   q = tier == 'quick'
   jobs = []
-  for i in range(6 if q else 120):
+  for i in range(6 if q else 60):
     # eager evaluation compiles every primitive separately (minutes for a
     # multi-link model), so it is run on small models, one pipeline per job
     jobs.append({'kind': 'pipeline', 'seed': seed, 'idx': i,
                  'eager': i % 2 == 1})
-  for i in range(4 if q else 40):
+  for i in range(4 if q else 30):
     jobs.append({'kind': 'scripted', 'seed': seed, 'idx': i})
   envs_ = [('inverted_pendulum', b) for b in ('generalized', 'spring',
                                               'positional')]
@@ -62,13 +62,13 @@ def plan(tier, seed):
 
 
 def floors(tier):
-  k = 1 if tier == 'quick' else 12
+  k = 1 if tier == 'quick' else 6
   f = {}
   for p in ('generalized', 'spring', 'positional'):
     # generalized members with an active solver row are recorded, not asserted
     f['ev:batch_equals_solo:' + p] = (4 if p == 'generalized' else 8) * k
     f['ev:members_independent:' + p] = 8 * k
-  f['ev:eager_equals_jit'] = 2 * (1 if tier == 'quick' else 10)
+  f['ev:eager_equals_jit'] = 2 * (1 if tier == 'quick' else 6)
   f['ev:wrapped_batch_equals_solo:scripted'] = 6 * k
   f['ev:wrapped_members_independent:scripted'] = 6 * k
   f['ev:wrapped_batch_equals_solo:env'] = 12 * (1 if tier == 'quick' else 4)
